@@ -83,7 +83,7 @@ def version():
     return m.group(1) if m else "0"
 
 
-HARNESS = ("hx.c", "hx_b64.c", "hx_tables.c", "hx_io.c", "hx_jwk.c", "hx_misc.c", "hx_jws.c", "hx_jwe.c", "hx_api.c")
+HARNESS = ("hx.c", "hx_b64.c", "hx_tables.c", "hx_io.c", "hx_jwk.c", "hx_misc.c", "hx_jws.c", "hx_jwe.c", "hx_api.c", "hx_cfg.c", "hx_glob.c")
 
 
 def build(kind="asan", harness=HARNESS, verbose=False):
@@ -145,7 +145,7 @@ def build(kind="asan", harness=HARNESS, verbose=False):
         jose = os.path.join(out, "jose")
         run(["cc"] + ldflags + cobjs + lobjs + dl + ["-o", jose])
         hx = os.path.join(out, "hx")
-        run(["cc"] + ldflags + ["-rdynamic"] + hobjs + hcobjs + lobjs + dl + ["-o", hx])
+        run(["cc"] + ldflags + ["-rdynamic", "-Wl,-Map=" + hx + ".map"] + hobjs + hcobjs + lobjs + dl + ["-o", hx])
         info = dict(dir=out, objs=lobjs, jose=jose, hx=hx, kind=kind, key=key,
                     build_s=round(time.time() - t0, 2), lib_sources=libs)
         json.dump(info, open(info_p, "w"))
